@@ -339,7 +339,10 @@ func (fc *FCtx) evalBinary(e *ast.BinaryExpr, st *State) Val {
 		return fc.shift(e.Op, x, y, fc.info().TypeOf(e), e.Y, st, e.Pos())
 	case token.ADD, token.SUB, token.MUL, token.QUO, token.REM:
 		if x.S.Kind == KStr {
-			oos("string concatenation")
+			if e.Op != token.ADD || y.S.Kind != KStr {
+				oos("string operator %s", e.Op)
+			}
+			return fc.strCat(x, y, fc.info().TypeOf(e), st)
 		}
 		return fc.arith(e.Op, x, y, fc.info().TypeOf(e), st, e.Pos())
 	case token.OR, token.XOR, token.AND_NOT:
@@ -836,4 +839,12 @@ func (fc *FCtx) constArray(keySort string, elem *Sort, zero string) string {
 		fc.U.decl("ax:"+name, fmt.Sprintf("(assert (forall ((i %s)) (! (= (select %s i) %s) :pattern ((select %s i)))))", keySort, name, zero, name))
 	}
 	return name
+}
+
+// strCat: string concatenation as an uninterpreted function with the length law and the two unit laws (the characters
+// are not modelled: strings are compared for equality and measured, not inspected).
+func (fc *FCtx) strCat(x, y Val, t types.Type, st *State) Val {
+	fc.U.Fun("str_cat", []*Sort{SStr, SStr}, SStr)
+	fc.U.Axiom("string concatenation: length and units", "(forall ((a Str) (b Str)) (! (and (= (str_len (str_cat a b)) (+ (str_len a) (str_len b))) (=> (= (str_len b) 0) (= (str_cat a b) a)) (=> (= (str_len a) 0) (= (str_cat a b) b))) :pattern ((str_cat a b))))")
+	return Val{T: app("str_cat", x.T, y.T), S: SStr, GoT: t}
 }
